@@ -1376,3 +1376,7 @@ if __name__ == "__main__":
     src2v3_linear.main()
     import src2v3_cli  # work package linearT: coq/gen/Src3x.v (mlar extraction path; fails closed per item)
     src2v3_cli.main()
+    import src2v3_capi  # work package capiT: coq/gen/Src3a.v (C interface, fails closed per item)
+    src2v3_capi.main()
+    import src2v3_keys  # work package capiT: coq/gen/Src3k.v (curve25519-parser, fails closed per item)
+    src2v3_keys.main()
